@@ -109,6 +109,10 @@ Conservation == Cardinality(ProcSet) + Cardinality(InChans) + dropped = Cardinal
 NoOrphan == \A c \in 1..Len(chans) : (c # cur /\ c # cref /\ (wlock = 0 \/ (c # ex.from /\ c # Len(chans)))) => chans[c].q = <<>>
 \* a single producer's rows are processed in emission order
 PerProducerOrder == \A i, j \in 1..Len(processed) : (i < j /\ processed[i][1] = processed[j][1]) => processed[i][2] < processed[j][2]
+\* the exact shape of the recorded deviation from PerProducerOrder: the consumer reads the reference once per row, so at most one row per
+\* created buffer is processed EARLY (before a lower-numbered row of the same producer); TraceIngest admits the deviation only within this bound
+EarlyRows == {i \in 1..Len(processed) : \E j \in (i + 1)..Len(processed) : processed[j][1] = processed[i][1] /\ processed[j][2] < processed[i][2]}
+EarlyBound == Cardinality(EarlyRows) <= Len(chans) - 1
 Quiescent == (\A p \in Producers : Done(p)) /\ InChans = {} /\ wlock = 0
 View == <<chans, cur, ppc, pn, expanding, wlock, ex, cpc, cref, processed, dropped>>
 EmitScenario == (Emit /\ Quiescent) => PrintT(<<"SCEN", ToJson(hist)>>)
